@@ -1181,6 +1181,18 @@ def run(ck):
     rng = ck.rng
     H = Hist()
 
+    if ck.replay:
+        # bin/check C12 --replay <file>: only the unit of a recorded replay (field "input"), all three ways
+        import json
+        rp = json.load(open(ck.replay))
+        unit = rp.get("input") or rp.get("original_input")
+        if unit is None:
+            raise common.Broken("replay file has no input")
+        examine(X, [unit], "replay")
+        if rp.get("kind") == "K-B":
+            run_kb(X, [unit])
+        ck.cov["inputs_per_set"] = X.ninputs
+        return
     # 1. corpus: witnesses of the repaired defects and hand-written units run first
     cdir = os.path.join(common.VERIF, "corpus", "C12")
     corpus = []
